@@ -579,7 +579,7 @@ func runC07(prop string, res *Result, pool *DrvPool, r *Rng) {
 
 // C10: truncation and read failure at every offset.
 func runC10(prop string, res *Result, pool *DrvPool, r *Rng) {
-	res.Rule = "every byte offset of generated dumps and race reports (with junk before) as the cut point x {EOF, non-EOF error after the data, non-EOF error with the last data}; compared with the uncut result of the implementation itself; non-trivial = the cut falls inside the dump; distinct by (stream, offset, kind)"
+	res.Rule = "every byte offset of generated dumps and race reports (with junk before) as the cut point x {EOF, non-EOF error after the data, non-EOF error with the last data, an error with Temporary()==true}, and every other cut also with path guessing and source analysis on; compared with the uncut result of the implementation itself; non-trivial = the cut falls inside the dump; distinct by (stream, offset, kind)"
 	nd := countN(res.Tier, 14, 300)
 	for i := 0; i < nd; i++ {
 		pre := ""
@@ -612,11 +612,17 @@ func runC10(prop string, res *Result, pool *DrvPool, r *Rng) {
 			step = 3
 		}
 		for k := 0; k < len(txt); k += step {
-			for kind := 0; kind < 3; kind++ {
+			for kind := 0; kind < 4; kind++ {
 				op := &ScanOp{Op: "scan", Data: hb(txt[:k]), Sched: []int{}, Final: "eof"}
 				if kind > 0 {
 					op.Final = "reader:7"
 					op.WithData = kind == 2
+				}
+				if kind == 3 {
+					if k%2 == 1 {
+						continue
+					}
+					op.Final = "reader:107" // a failure with Temporary() == Timeout() == true
 				}
 				if k%7 == 3 {
 					op.Sched = genSched(r, k)
@@ -635,7 +641,7 @@ func runC10(prop string, res *Result, pool *DrvPool, r *Rng) {
 				finished := got.Err == "" && (got.Rest.String() != "" || strings.HasSuffix(txt[:k], "==================\n"))
 				if finished {
 					res.Count("finished-before-cut")
-				} else if kind > 0 && got.Err != "reader:7" {
+				} else if kind > 0 && got.Err != op.Final {
 					bad(fmt.Sprintf("the reader failure was reported as %q", got.Err))
 				}
 				if !finished && kind == 0 && got.Err != "eof" && !strings.HasPrefix(got.Err, "parse:") {
@@ -678,6 +684,20 @@ func runC10(prop string, res *Result, pool *DrvPool, r *Rng) {
 				}
 				if (k+kind)%5 == 0 {
 					modelScan(pool, res, op, got, nil)
+				}
+				// the same cut with the default options (path guessing on): no
+				// crash, same error, same goroutines
+				if kind == 0 && (res.Tier == "thorough" || k%2 == 0) {
+					var gs *stack.Snapshot
+					var gerr error
+					if p := catch(func() {
+						gs, _, gerr = stack.ScanSnapshot(strings.NewReader(txt[:k]), io.Discard, &stack.Opts{LocalGOROOT: goroot, LocalGOPATHs: []string{"/nonexistent/gp1", "/nonexistent/gopath2"}, GuessPaths: true, AnalyzeSources: true})
+					}); p != nil {
+						bad(fmt.Sprintf("with path guessing and source analysis on, ScanSnapshot panicked: %v", p))
+					} else if errString(gerr) != got.Err || (gs == nil) != (got.Snap == nil) || (gs != nil && len(gs.Goroutines) != len(got.Snap)) {
+						bad(fmt.Sprintf("with path guessing on, the outcome changed: err %q vs %q", errString(gerr), got.Err))
+					}
+					res.Count("cuts-with-guesspaths")
 				}
 			}
 		}
@@ -780,6 +800,85 @@ func runC11(prop string, res *Result, pool *DrvPool, r *Rng) {
 		}
 		if i < 3 {
 			res.Sample(map[string]interface{}{"stream": clip(input), "reads": rd.Reads})
+		}
+	}
+	runC11Process(res, r.Fork())
+}
+
+// runC11Process: the same requirement at the level of the pp filter
+// (internal.process, which resumes scanning after every dump). The stream
+// alternates marker lines and dumps; at every Read of the underlying source (a
+// point where a live source may block for ever) every marker line delivered in
+// full so far must already be in the output.
+func runC11Process(res *Result, r *Rng) {
+	_, _, base := verifhooks.PathFormats()
+	for i := 0; i < countN(res.Tier, 250, 6000); i++ {
+		var sb strings.Builder
+		type mark struct {
+			line string
+			end  int
+		}
+		var marks []mark
+		nm := 0
+		junk := func(k int) {
+			for ; k > 0; k-- {
+				nm++
+				l := fmt.Sprintf("marker line %d of the live log", nm)
+				sb.WriteString(l + "\n")
+				marks = append(marks, mark{l + "\n", sb.Len()})
+			}
+		}
+		junk(r.Intn(3))
+		for d := 1 + r.Intn(3); d > 0; d-- {
+			if r.Chance(1, 5) {
+				rs := GenRace(r)
+				sb.WriteString(rs.Print(false))
+			} else {
+				sb.WriteString(GenCfg(r).Dump(GenDump(r, 3, 3)))
+			}
+			junk(1 + r.Intn(4))
+		}
+		input := sb.String()
+		var sched []int
+		switch r.Intn(3) {
+		case 0: // everything that is there at once: a dump and the lines after it in one chunk
+			sched = []int{}
+			for t := 0; t < len(input); {
+				k := 200 + r.Intn(4000)
+				sched = append(sched, k)
+				t += k
+			}
+		case 1:
+			sched = genSched(r, len(input))
+		default:
+			sched = make([]int, len(input))
+			for j := range sched {
+				sched[j] = 1
+			}
+		}
+		var out bytes.Buffer
+		rd := &SchedReader{data: []byte(input), sched: append([]int{}, sched...), final: io.EOF}
+		violation := ""
+		rd.OnRead = func(delivered int) {
+			if violation != "" {
+				return
+			}
+			o := out.String()
+			for _, m := range marks {
+				if m.end <= delivered && !strings.Contains(o, m.line) {
+					violation = fmt.Sprintf("the source was asked for more after %d bytes had been delivered, but the complete line %q (ends at byte %d) was not in the output yet", delivered, m.line, m.end)
+					return
+				}
+			}
+		}
+		p := catch(func() { verifhooks.Process(rd, &out, verifhooks.NewPalette(false), stack.AnyPointer, base, nil, nil) })
+		res.Eval(input+fmt.Sprint(sched), len(marks) >= 2)
+		res.Count("process-live-runs")
+		op := map[string]interface{}{"process": true, "input": hb(input), "sched": sched}
+		if p != nil {
+			res.Violation(Finding{Stream: "process-live", What: fmt.Sprintf("panic: %v", p), Op: op})
+		} else if violation != "" {
+			res.Violation(Finding{Stream: "process-live", What: violation, Op: op})
 		}
 	}
 }
